@@ -36,3 +36,28 @@ Check calculate_mono.
 (* non-vacuity: the hypothesis on the oracle is satisfiable *)
 Example C20_oracle_exists : exists imp : Z -> R, forall x, (/128 <= imp x)%R.
 Proof. exists (fun _ => 1%R). intro. lra. Qed.
+
+(* ---- the glue in Search: what is actually allotted ----
+   Search's constructor takes calculateTime for a clocked go; Search::go() then bounds the thinking time of a root with a
+   single legal move by half a second (before the repair it REPLACED the allotment by 500 ms: 'go wtime 50' thought for
+   half a second).  final_allotment is that step; the three properties survive it. *)
+From Coq Require Import Lia.
+Definition final_allotment (single_root_move : bool) (a : Z) : Z := if single_root_move then Z.min a 500 else a.
+
+Theorem C20_search_allotment_cap : forall imp single T inc mtg ply, 0 <= T < 2 ^ 31 ->
+  10 * final_allotment single (calc64 imp T inc mtg ply) <= 7 * T.
+Proof. intros imp single T inc mtg ply H. pose proof (calc64_cap imp T inc mtg ply H). unfold final_allotment. destruct single; lia. Qed.
+Print Assumptions C20_search_allotment_cap.
+
+Theorem C20_search_allotment_nonneg : forall imp, (forall x, (/128 <= imp x)%R) ->
+  forall single T inc mtg ply, 0 <= T -> 0 <= inc -> 0 <= final_allotment single (calc64 imp T inc mtg ply).
+Proof. intros imp Hi single T inc mtg ply H1 H2. pose proof (calc64_nonneg imp Hi T inc mtg ply H1 H2). unfold final_allotment. destruct single; lia. Qed.
+
+Theorem C20_search_allotment_monotone : forall imp, (forall x, (/128 <= imp x)%R) ->
+  forall single T T' inc mtg ply, T <= T' ->
+  final_allotment single (calc64 imp T inc mtg ply) <= final_allotment single (calc64 imp T' inc mtg ply).
+Proof. intros imp Hi single T T' inc mtg ply H. pose proof (calc64_mono imp Hi T T' inc mtg ply H). unfold final_allotment. destruct single; lia. Qed.
+
+(* the defect that was repaired: replacing the allotment by 500 breaks the cap for every clock below 715 ms *)
+Theorem C20_unconditional_500_refuted : exists T, 0 <= T < 2 ^ 31 /\ ~ (10 * 500 <= 7 * T).
+Proof. exists 100. lia. Qed.
